@@ -128,7 +128,7 @@ pub fn spec_for(property: &str) -> Option<CheckSpec> {
             parts: vec![part("handlers", 3000, 300_000)],
             assumptions: HANDLERS_ASSUMPTIONS.iter().map(|s| s.to_string()).collect(),
         },
-        "C07" => CheckSpec { property: "C07", level: "exploration", parts: vec![part("dlrt-value", 3000, 300_000), part("dlrt-map", 3000, 300_000)], assumptions: vec![
+        "C07" => CheckSpec { property: "C07", level: "exploration", parts: vec![part("dlrt-value", 3000, 300_000), part("dlrt-map", 3000, 300_000), part("queues", 2000, 200_000)], assumptions: vec![
             "the downlink runtime is polled as one task; the remote lane and the consumers are scripted harness code speaking the product's codecs over the product's byte channels".into(),
             "workloads use one writer per map key and clears only in single-writer runs so that 'as if all were sent' is unambiguous".into()] },
         "C08" => CheckSpec { property: "C08", level: "exploration", parts: vec![part("dltask-value", 4000, 400_000), part("dltask-map", 4000, 400_000), part("hosted-value", 3000, 300_000), part("hosted-map", 4000, 400_000)], assumptions: vec![
